@@ -282,6 +282,11 @@ func VH_Reassembler() {
 	doPush := func(i int) {
 		seq := vU32("seq")
 		typ := vU16("typ")
+		if na := vParam("alphabet", 0); na > 0 {
+			// small alphabet, longer histories: sequence = base + one of `na` offsets, three record kinds
+			seq = m.base + uint32(vChoose("seqoff", na))
+			typ = []uint16{uint16(auparse.AUDIT_SYSCALL), uint16(auparse.AUDIT_PROCTITLE), uint16(auparse.AUDIT_EOE)}[vChoose("kind", 3)]
+		}
 		if vParam("plain", 0) != 0 {
 			vAssume(typ == uint16(auparse.AUDIT_SYSCALL)) // a record that neither completes nor bypasses buffering
 		}
@@ -397,6 +402,7 @@ func VH_ReassemblerPush() {
 	if err != nil {
 		return
 	}
+	rdbuf := make([]byte, 64)
 	for i := 0; i < k; i++ {
 		typ := vU16("typ")
 		seq := uint32(5 + vChoose("seq", 2))
@@ -408,9 +414,14 @@ func VH_ReassemblerPush() {
 			m.seqs = append(m.seqs, seq)
 			m.delivered = append(m.delivered, 0)
 		}
-		err := r.Push(auparse.AuditMessageType(typ), []byte(text))
+		// the caller's read buffer is reused from one Push to the next (Push documents that it copies)
+		n := copy(rdbuf, text)
+		err := r.Push(auparse.AuditMessageType(typ), rdbuf[:n])
 		if err == nil {
 			vReach("C01/push-accepted")
+		}
+		for j := range rdbuf {
+			rdbuf[j] = '#'
 		}
 		if err != nil && !isEOE {
 			m.seqs[len(m.seqs)-1] = 0 // rejected: must never show up
